@@ -668,7 +668,16 @@ pub(crate) fn shr(lhs: Number, rhs: Number, arena: &mut Arena) -> Result<Number,
                 }
             };
 
-            Ok(Number::arena_from(Integer::from(&*lhs >> rhs), arena))
+            // For negative values use floor(x / 2^n) = !(!x >> n): `!x` is non-negative, and
+            // the shift of a non-negative bignum is exact. (The library's `>>` on negative
+            // values only inspects the low 64 bits when rounding magnitudes below 2^128.)
+            let res = if lhs.is_negative() {
+                !(Integer::from(!&*lhs) >> rhs)
+            } else {
+                Integer::from(&*lhs >> rhs)
+            };
+
+            Ok(Number::arena_from(res, arena))
         }
         other => Err(numerical_type_error(ValidType::Integer, other, stub_gen)),
     }
